@@ -182,6 +182,7 @@ func main() {
 	explore(r, st, "core", nTables, perTable, false)
 	// unjudged side stream over the excluded class
 	explore(r, st, "ood", r.N(40, 600), 10, true)
+	intInMixed(r)
 	pinned(r)
 
 	gen := r.Counter("filters-generated")
